@@ -13,6 +13,7 @@ import (
 	sdk "github.com/pokt-network/posmint/types"
 	"github.com/pokt-network/posmint/x/auth"
 	authexp "github.com/pokt-network/posmint/x/auth/exported"
+	authTypes "github.com/pokt-network/posmint/x/auth/types"
 	govTypes "github.com/pokt-network/posmint/x/gov/types"
 	posTypes "github.com/pokt-network/posmint/x/pos/types"
 )
@@ -397,10 +398,23 @@ func (s *Snapshot) govText() string {
 	} else {
 		pairs = []string{"?"}
 	}
-	return fmt.Sprintf(" gov[ms=%s,mv=%s,ut=%s,w=%s,mspw=%s,jd=%s,mea=%s,sfds=%s,sfdt=%s,memo=%s,tsl=%s,daoo=%s,upg=%s] acl[%s]",
+	return fmt.Sprintf(" gov[ms=%s,mv=%s,ut=%s,w=%s,mspw=%s,jd=%s,mea=%s,sfds=%s,sfdt=%s,memo=%s,tsl=%s,fm=%s,daoo=%s,upg=%s] acl[%s]",
 		q("pos/StakeMinimum"), q("pos/MaxValidators"), q("pos/UnstakingTime"), q("pos/SignedBlocksWindow"), dec("pos/MinSignedPerWindow"),
 		q("pos/DowntimeJailDuration"), q("pos/MaxEvidenceAge"), dec("pos/SlashFractionDoubleSign"), dec("pos/SlashFractionDowntime"),
-		q("auth/MaxMemoCharacters"), q("auth/TxSigLimit"), q("gov/daoOwner"), upg, strings.Join(pairs, ","))
+		q("auth/MaxMemoCharacters"), q("auth/TxSigLimit"), fmText(s.Params["auth/FeeMultipliers"]), q("gov/daoOwner"), upg, strings.Join(pairs, ","))
+}
+
+// fmText: the fee multipliers as the model prints them: type:multiplier;.../default
+func fmText(raw string) string {
+	var fm authTypes.FeeMultipliers
+	if err := authTypes.ModuleCdc.UnmarshalJSON([]byte(raw), &fm); err != nil {
+		return "?" + raw
+	}
+	var p []string
+	for _, e := range fm.FeeMultis {
+		p = append(p, fmt.Sprintf("%s:%d", e.Key, e.Multiplier))
+	}
+	return strings.Join(p, ";") + fmt.Sprintf("/%d", fm.Default)
 }
 
 var _ = auth.StoreKey
